@@ -29,6 +29,14 @@ let op_of_token (t : string) : op option =
     (match it with
      | Some it -> Some (OInsert (it, TLit (bytes_of_hex target), bytes_of_hex file))
      | None -> None)
+  | ["insx"; it; _pattern; set; file] ->
+    let it = match it with
+      | "front" | "gfront" -> Some IFront | "end" | "gend" -> Some IEnd
+      | "after" | "gafter" -> Some IAfter | "before" | "gbefore" -> Some IBefore
+      | "replace" -> Some IReplace | _ -> None in
+    (match it with
+     | Some it -> Some (OInsert (it, TSet (set_of_field set), bytes_of_hex file))
+     | None -> None)
   | ["rm"; p; target] -> Some (ORemove (p = "1", TLit (bytes_of_hex target)))
   | ["pe"; target; pe] -> Some (OReplacePE32 (TLit (bytes_of_hex target), bytes_of_hex pe))
   (* a pattern: the model gets the set of texts it matches in full (computed by the executor) *)
@@ -107,6 +115,12 @@ let eval_edit fn args : string option =
            Some (if valid_image dec depth (bytes_of_hex (String.sub o 3 (String.length o - 3))) then "ok 1" else "ok 0")
          else Some o
        | None -> None)
+    | "flat", img :: toks ->
+      (* the hypothesis of C02_valid_after_edits_flat; the reader's depth is one more than the
+         depth below the top-level volumes *)
+      (match ops_of_tokens toks, depth with
+       | Some ops, S d -> Some (if flat_check dec u2s nvar depth d ops (bytes_of_hex img) then "flat" else "not-flat")
+       | _ -> None)
     | "find", [img; fvp; arg] -> Some (obs_find (bytes_of_hex img) (SText (fvp = "1", bytes_of_hex arg)))
     | "findx", [img; _pattern; set] -> Some (obs_find (bytes_of_hex img) (SAny (false, set_of_field set)))
     | "valid", [img] ->
